@@ -139,3 +139,24 @@ Theorem C02_chunks_decrypt_under_every_schedule :
 Proof. exact (dec_spec_chunks_ok). Qed.
 Print Assumptions C02_chunks_decrypt_under_every_schedule.
 
+
+(* KNOWN FINDING (KNOWN_FINDINGS.txt, property C02, key "hmac-key-hashing"): "every other password is rejected" is
+   FALSE of RFC 7914 scrypt itself.  HMAC (RFC 2104) hashes keys longer than its 64-byte block and zero-pads
+   shorter ones, so for EVERY password longer than 64 bytes its 32-byte SHA-256 digest — a different byte
+   string — derives the same key for every salt and every cost parameter, and for every password shorter than
+   64 bytes so does the password followed by a zero byte.  The wrong-password theorems above therefore carry the
+   premise that the derived keys differ / no open under the other key succeeds.  Not repaired: any change would
+   break RFC 7914 conformance (C18) and the frozen format (C06). *)
+From Kestrel.Spec Require Import Sha256 ScryptConcrete.
+From Kestrel.Proofs Require Import PasswordEquiv.
+Theorem C02_other_password_refuted_long_password :
+  forall pw salt NN r p dk, (64 < length pw)%nat ->
+    sha256 pw <> pw /\ rfc_scrypt pw salt NN r p dk = rfc_scrypt (sha256 pw) salt NN r p dk.
+Proof. intros pw salt NN r p dk H. exact (conj (long_password_differs pw H) (long_password_digest_equivalent pw salt NN r p dk H)). Qed.
+Print Assumptions C02_other_password_refuted_long_password.
+
+Theorem C02_other_password_refuted_zero_padding :
+  forall pw salt NN r p dk, (length pw < 64)%nat ->
+    pw ++ [0%N] <> pw /\ rfc_scrypt (pw ++ [0%N]) salt NN r p dk = rfc_scrypt pw salt NN r p dk.
+Proof. intros pw salt NN r p dk H. exact (conj (zero_padded_differs pw) (zero_padded_password_equivalent pw salt NN r p dk H)). Qed.
+Print Assumptions C02_other_password_refuted_zero_padding.
